@@ -4,6 +4,8 @@
    modelled.  Statements only, each closed by `exact`. *)
 From Coq Require Import ZArith QArith List Bool.
 Require Import SkV.Lib.Base SkV.Lib.ZRange SkV.C11.Model SkV.C11.Proofs SkV.C03.Model SkV.C03.Proofs.
+Require Import SkV.C11.Gen SkV.C11.Bridge SkV.C03.Site SkV.C03.Bridge.
+Require SkV.C20.Model SkV.C20.Gen.
 Import ListNotations.
 Open Scope Z_scope.
 
@@ -103,6 +105,82 @@ Print Assumptions C03_shift_equivariance.
 Theorem C03_shift_relative_horizon : forall k c h, to_relative (c + k) (shift_h k h) = to_relative c h.
 Proof. exact shift_relative. Qed.
 Print Assumptions C03_shift_relative_horizon.
+
+(* ==== THROUGH THE BRIDGE: the same statements about what the code says NOW =======================
+   gen_fit_state / gen_update_state / gen_pred_index / gen_leaf_values / gen_model_run are assembled
+   (C03/Bridge.v) from definitions regenerated on this run: C03/Site.v (cutoff := y.index[-1] in
+   _set_y_X / _update_y_X, the non-empty guard, the refit of update, EVERY prediction-index site in
+   the scope), C11/Gen.v (ForecastingHorizon arithmetic, NaiveForecaster.fit and
+   _predict_last_window, the polynomial time axis), C20/Gen.v (_set_fh). *)
+
+Theorem C03_code_is_model :
+  (forall s, gen_fit_state s = fit_state s) /\
+  (forall st b, gen_update_state st b = update_state st b) /\
+  (forall st h, gen_pred_index st h = pred_index st h) /\
+  (forall f train st h, gen_leaf_values f train st h = leaf_values f train st h) /\
+  (forall leaf s ups refit h, gen_model_run leaf s ups refit h = model_run leaf s ups refit h).
+Proof.
+  exact (conj bridge_fit_state (conj bridge_update_state (conj bridge_pred_index
+        (conj bridge_leaf_values bridge_model_run)))).
+Qed.
+Print Assumptions C03_code_is_model.
+
+(* every place in the scope that labels a forecast does so by cutoff + step *)
+Theorem C03_code_every_index_site : Forall (fun f => forall c r, f c r = c + r) gen_index_sites.
+Proof. exact bridge_index_sites. Qed.
+Print Assumptions C03_code_every_index_site.
+
+Theorem C03_code_predict_index : forall st h,
+  length (gen_pred_index st h) = length (hlist h) /\
+  (forall l, h = Rel l -> gen_pred_index st h = map (fun r => cutoff st + r) l) /\
+  (forall l, h = Abs l -> gen_pred_index st h = l) /\
+  (sorted_lt (hlist h) -> sorted_lt (gen_pred_index st h)).
+Proof. intros st h. rewrite bridge_pred_index. exact (C03_predict_index st h). Qed.
+Print Assumptions C03_code_predict_index.
+
+Theorem C03_code_cutoff_after_fit : forall s, cutoff (gen_fit_state s) = t0 s + zlen (ys s) - 1.
+Proof. intro s. rewrite bridge_fit_state. exact (C03_cutoff_after_fit s). Qed.
+Print Assumptions C03_code_cutoff_after_fit.
+
+Theorem C03_code_cutoff_after_update : forall st tb b,
+  cutoff (gen_update_state st (tb, b)) = match b with [] => cutoff st | _ => tb + zlen b - 1 end.
+Proof. intros st tb b. rewrite bridge_update_state. exact (C03_cutoff_after_update st tb b). Qed.
+Print Assumptions C03_code_cutoff_after_update.
+
+Theorem C03_code_cutoff_after_history : forall s ups,
+  cutoff (gen_run_state s ups) = fold_left next_cutoff ups (t0 s + zlen (ys s) - 1).
+Proof. intros s ups. rewrite bridge_run_state. exact (proj1 (C03_cutoff_after_history s ups)). Qed.
+Print Assumptions C03_code_cutoff_after_history.
+
+(* the horizon predict uses, by the regenerated _set_fh: the one passed to predict, else the one
+   remembered from fit; lf / lp = the checked horizons passed to fit / predict (None = not passed) *)
+Theorem C03_code_horizon_used : forall hf hp lf lp,
+  checked hf = Ok lf -> checked hp = Ok lp ->
+  code_horizon hf hp =
+  match used_fh (option_map Rel lf) (option_map Rel lp) with
+  | Ok h => Ok (Some (hlist h))
+  | Err => Err
+  end.
+Proof. exact bridge_horizon_used. Qed.
+Print Assumptions C03_code_horizon_used.
+
+Theorem C03_code_run_finite_for_finite : forall f s ups refit h trace idx vals,
+  1 <= zlen (ys s) -> finite (ys s) -> (forall b, In b ups -> finite (snd b)) ->
+  sorted_lt (to_relative (cutoff (run_state s ups)) h) ->
+  all_pos (to_relative (cutoff (run_state s ups)) h) ->
+  gen_model_run (Some f) s ups refit h = (trace, idx, Some (Ok vals)) -> finite vals.
+Proof.
+  intros f s ups refit h trace idx vals H1 H2 H3 H4 H5 H6. rewrite bridge_model_run in H6.
+  exact (C03_run_finite_for_finite f s ups refit h trace idx vals H1 H2 H3 H4 H5 H6).
+Qed.
+Print Assumptions C03_code_run_finite_for_finite.
+
+Theorem C03_code_shift_equivariance : forall k leaf s ups refit h,
+  gen_model_run leaf (shift_series k s) (map (shift_batch k) ups) refit (shift_h k h)
+  = let '(trace, idx, v) := gen_model_run leaf s ups refit h in
+    (map (fun c => c + k) trace, map (fun t => t + k) idx, v).
+Proof. intros k leaf s ups refit h. rewrite !bridge_model_run. exact (C03_shift_equivariance k leaf s ups refit h). Qed.
+Print Assumptions C03_code_shift_equivariance.
 
 (* non-vacuity: a program with two updates (one empty), a gapped absolute horizon, seasonal mean *)
 Example C03_nonvacuous :
